@@ -92,6 +92,24 @@ class SpMat:
     def multiply(self, o): return SpMat(self.a * _obj(o))
     def sum(self, axis=None): return self.a.sum(axis=axis)
     def getrow(self, i): return SpMat(self.a[i:i + 1])
+    # CSR view: structural entries = everything that is not the concrete number 0
+    def _csr(self):
+        indptr = [0]; indices = []; data = []
+        for i in range(self.a.shape[0]):
+            for j in range(self.a.shape[1]):
+                e = self.a[i, j]
+                if isinstance(e, Sym) or e != 0:
+                    indices.append(j); data.append(e)
+            indptr.append(len(indices))
+        d = _np.empty(len(data), dtype=object)
+        for k, e in enumerate(data): d[k] = e
+        return _np.array(indptr, dtype=_np.int32), _np.array(indices, dtype=_np.int32), d
+    @property
+    def indptr(self): return self._csr()[0]
+    @property
+    def indices(self): return self._csr()[1]
+    @property
+    def data(self): return self._csr()[2]
     def eliminate_zeros(self): pass
     def sort_indices(self): pass
     def sum_duplicates(self): pass
@@ -111,8 +129,9 @@ def _from_triplets(data, I, J, shape):
 
 class _Facade:
     SpMat = SpMat
-    def issparse(self, x): return isinstance(x, SpMat) or _sp.issparse(x)
+    def issparse(self, x): return isinstance(x, SpMat) or _sp.issparse(x) or getattr(x, '_is_sparse_stub', False)
     isspmatrix = issparse
+    def isspmatrix_csr(self, x): return (isinstance(x, SpMat) and x.format == 'csr') or getattr(x, '_is_csr_stub', False) or _sp.isspmatrix_csr(x)
     def eye(self, n, m=None, k=0, dtype=None, format=None):
         m = n if m is None else m
         a = _np.empty((n, m), dtype=object); a[...] = 0
